@@ -28,10 +28,14 @@ Max(S) == CHOOSE x \in S : \A y \in S : y <= x
 RECURSIVE Perms(_)
 Perms(S) == IF S = {} THEN {<<>>}
             ELSE UNION {{<<x>> \o p : p \in Perms(S \ {x})} : x \in S}
-Replies == UNION {Perms(S) : S \in SUBSET Versions}
-
 RECURSIVE Desc(_)
 Desc(S) == IF S = {} THEN <<>> ELSE <<Max(S)>> \o Desc(S \ {Max(S)})
+
+\* ... and lists that also carry versions of another major release (numbered 10 * major + minor: 20 = 2.0, 21 = 2.1, 30 = 3.0), which no
+\* client set contains: in front of, or after, the versions of this release
+Foreign == {20, 21, 30}
+Replies == UNION {Perms(S) : S \in SUBSET Versions}
+           \cup UNION {{<<30, 21, 20>> \o p, p \o <<21>>, <<21>> \o p \o <<30>>} : p \in {Desc(S) : S \in SUBSET Versions}}
 
 Init == /\ pc = "config"
         /\ C \in (SUBSET Versions) \ {{}}
